@@ -54,7 +54,8 @@ claimed["C08"] = (
     "Bounded symbolic verification of the packet log / cleaner / RestoreSession kernel against a ghost log under a VIRTUAL CLOCK: histories of 1..2 (quick) / 1..3 (thorough) broadcasts of four addressing kinds, "
     "disconnect point d, clean-up passes after the disconnect (0..1) and before the restore (0..2) executed by running the real cleaner goroutine body (its time.Sleep is gated), and the time elapsed between "
     "all steps as SYMBOLIC durations (0..4 units each, decided by the solver, not enumerated). Asserts: recovered => exactly the addressed packets after the offset, in order, none twice (no gap); session older "
-    "than the window => not recovered; session and log entries younger than the window => recoverable whatever the passes; unknown pid / offset => not recovered; only plain events are logged.",
+    "than the window => not recovered; session and log entries younger than the window => recoverable whatever the passes; unknown pid / offset => not recovered; only plain events are logged. "
+    "Glue: the client records the trailing offset argument iff it holds a session id and strips it before the handler; a recovered server socket re-joins exactly its persisted rooms and re-sends exactly the missed packets in order.",
     "Outside the claim: instants exactly at the window boundary (durations are multiples of 100ms against a 250ms window), binary packets through the real encoder (frames are opaque), several sessions on one log, time overflow. Native replay approximates cleaner passes with a 2ms period.",
     "5 (C08)")
 
